@@ -534,6 +534,44 @@ def gen_gfa2(rng, canonical=True, nseg=None, nedges=None, ngaps=None, nfrags=Non
     return d
 
 
+def gen_rgfa(rng, canonical=True, comments=True):
+    """valid rGFA document (dialect of GFA1): no H/C/P lines, S lines with SN:Z SO:i SR:i, links with
+    0M overlaps and optional SR/L1/L2:i tags; further tags of any datatype allowed."""
+    d = Gfa1Doc()
+    pool = list(NAME_POOL_1)
+    rng.shuffle(pool)
+    names = pool[:rng.randint(1, 6)]
+    if comments:
+        for _ in range(rng.choice([0, 0, 1, 2])):
+            d.comments.append(rng.choice(["# comment", "#no space", "# a\tb", "#"]))
+    off = 0
+    for n in names:
+        seq = rseq(rng, rng.randint(1, 12)) if rng.random() < 0.6 else "*"
+        st = [("SN", "Z", rng.choice(["chr1", "chr2", "ctg.7", "x y"])), ("SO", "i", str(off)),
+              ("SR", "i", str(rng.choice([0, 0, 1, 2])))]
+        off += rng.randint(0, 50)
+        rng.shuffle(st)
+        if seq == "*" and rng.random() < 0.5:
+            st.append(("LN", "i", str(rng.randint(1, 30))))
+        st += V.random_tags(rng, n=rng.randint(0, 2), canonical=canonical,
+                            used={"SN", "SO", "SR", "LN", "RC", "FC", "KC", "SH", "UR"})
+        d.segments.append({"name": n, "seq": seq, "tags": st})
+    seen = set()
+    for _ in range(rng.randint(0, 6)):
+        l = {"f": rng.choice(names), "fo": rng.choice("+-"), "t": rng.choice(names), "to": rng.choice("+-"),
+             "ov": "0M", "tags": []}
+        if link_key(l) in seen:
+            continue
+        seen.add(link_key(l))
+        for tn in ("SR", "L1", "L2"):
+            if rng.random() < 0.4:
+                l["tags"].append((tn, "i", str(rng.randint(0, 99))))
+        l["tags"] += V.random_tags(rng, n=rng.randint(0, 1), canonical=canonical,
+                                   used={"SR", "L1", "L2", "MQ", "NM", "RC", "FC", "KC", "ID"})
+        d.links.append(l)
+    return d
+
+
 def gen_doc(rng, version=None, **kw):
     version = version or rng.choice(["gfa1", "gfa2"])
     return gen_gfa1(rng, **kw) if version == "gfa1" else gen_gfa2(rng, **kw)
